@@ -113,6 +113,10 @@ type RunReq struct {
 	// SecondContext: the root of a copy of the module; a second context is created there BEFORE the
 	// reported one and executed (unrecorded) AFTER it has been created: two contexts alive at once.
 	SecondContext string `json:"second_context,omitempty"`
+	// ViaRegistry: the generators are registered (gengo.Register, again on every request, as a tool does
+	// that registers before each run) and then taken from gengo.GetRegisteredGenerators(), keeping what the
+	// registry hands out for their names - in its order and as often as it hands them out.
+	ViaRegistry bool `json:"via_registry,omitempty"`
 	// KeepExecutor: the executor created for this request stays alive in the worker; ReuseExecutor: instead of
 	// loading again, call Execute on the executor kept by the previous request (same root, same process) - a
 	// tool that loads once and runs several passes, a watch loop. If there is none, load as usual.
